@@ -420,6 +420,12 @@ pub open spec fn merge_val_post<K: Ord, V: Val<A> + CvRDT, A: Ord + Hash>(old_: 
     }
 }
 
+/// pass 1 of merge leaves every key that `other` holds untouched (named so that it travels through loop invariants and
+/// lemma preconditions without quantifier instantiation)
+pub open spec fn pass1_frame<K: Ord, V: Val<A>, A: Ord + Hash>(old_: Map<K, V, A>, other: Map<K, V, A>, s1: Map<K, V, A>) -> bool {
+    forall|m: K| other.has(m) ==> #[trigger] s1.ec(m) == old_.ec(m) && s1.has(m) == old_.has(m) && (s1.has(m) ==> s1.val(m) == old_.val(m))
+}
+
 /// C17, nested part: key k is present on both sides with CONCURRENT entry clocks and the nested values flag each other
 pub open spec fn nflag_at<K: Ord, V: Val<A> + CvRDT, A: Ord + Hash>(s: Map<K, V, A>, o: Map<K, V, A>, k: K) -> bool {
     s.has(k) && o.has(k) && pcmp(s.ec(k), o.ec(k)) is None && s.val(k).cv_flag(&o.val(k))
@@ -581,7 +587,7 @@ impl<K: Ord + Clone, V: Val<A> + CvRDT, A: Ord + Hash + Clone> CvRDT for Map<K, 
         //@     forall|i: int| 0 <= i < ovs.len() ==> other.entries@.contains_key((#[trigger] ovs[i]).0) && other.entries@[ovs[i].0] == ovs[i].1,
         //@     forall|i: int, j: int| 0 <= i < j < ovs.len() ==> (#[trigger] ovs[i]).0 != (#[trigger] ovs[j]).0,
         //@     forall|k: K| other.entries@.contains_key(k) ==> exists|i: int| 0 <= i < ovs.len() && (#[trigger] ovs[i]).0 == k,
-        //@     forall|m: K| other.has(m) ==> #[trigger] s1.ec(m) == old(self).ec(m) && s1.has(m) == old(self).has(m) && (s1.has(m) ==> s1.val(m) == old(self).val(m)),
+        //@     pass1_frame(*old(self), other, s1),
         //@     // keys of `other` already visited are final; the rest is still as pass 1 left it
         //@     forall|m: K, a: A| #![trigger cnt(self.ec(m), a)] cnt(self.ec(m), a) == (
         //@         if exists|j: int| 0 <= j < it.index@ && (#[trigger] ovs[j]).0 == m { mrg(cnt(old(self).ec(m), a), cnt(other.ec(m), a), cnt(old(self).cl(), a), cnt(other.cl(), a)) }
@@ -1366,7 +1372,7 @@ proof fn lemma_mmerge_pass1<K: Ord, V: Val<A>, A: Ord + Hash>(old_: Map<K, V, A>
     ensures
         s1.wf(), s1.cl() == old_.cl(), s1.defs() == old_.defs(),
         forall|m: K, a: A| #![trigger cnt(s1.ec(m), a)] cnt(s1.ec(m), a) == (if other.has(m) { cnt(old_.ec(m), a) } else { mrg(cnt(old_.ec(m), a), 0, cnt(old_.cl(), a), cnt(other.cl(), a)) }),
-        forall|m: K| other.has(m) ==> #[trigger] s1.ec(m) == old_.ec(m) && s1.has(m) == old_.has(m) && (s1.has(m) ==> s1.val(m) == old_.val(m)),
+        pass1_frame(old_, other, s1),
         forall|m: K| #[trigger] s1.has(m) ==> old_.has(m),
         forall|m: K| !other.has(m) && #[trigger] s1.has(m) ==> exists|c: VClock<A>| c@ == vsub(other.cl(), s1.ec(m)) && #[trigger] V::rr_post(&old_.val(m), &c, &s1.val(m)),
 {
@@ -1414,7 +1420,7 @@ proof fn lemma_mmerge_pass2_step<K: Ord, V: Val<A> + CvRDT, A: Ord + Hash>(old_:
         0 <= idx < ovs.len(), pre.wf(), old_.wf(), other.wf(), s1.wf(),
         forall|i: int| 0 <= i < ovs.len() ==> other.entries@.contains_key((#[trigger] ovs[i]).0) && other.entries@[ovs[i].0] == ovs[i].1,
         forall|i: int, j: int| 0 <= i < j < ovs.len() ==> (#[trigger] ovs[i]).0 != (#[trigger] ovs[j]).0,
-        forall|m: K| other.has(m) ==> #[trigger] s1.ec(m) == old_.ec(m) && s1.has(m) == old_.has(m) && (s1.has(m) ==> s1.val(m) == old_.val(m)),
+        pass1_frame(old_, other, s1),
         forall|m: K, a: A| #![trigger cnt(pre.ec(m), a)] cnt(pre.ec(m), a) == (
             if exists|j: int| 0 <= j < idx && (#[trigger] ovs[j]).0 == m { mrg(cnt(old_.ec(m), a), cnt(other.ec(m), a), cnt(old_.cl(), a), cnt(other.cl(), a)) }
             else { cnt(s1.ec(m), a) }),
